@@ -188,7 +188,12 @@ def run(ctx):
                 bad = [u for u in recips if u not in set(el)]
                 if bad: viol(f'{label}: {ent["name"]} at step {ti} reached agent {bad[0]}, who is not returned by the eligibility rule', Wt)
             bad = [u for u in recips if u not in act]
-            if bad: viol(f'{label}: {ent["name"]} at step {ti} reached agent {bad[0]}, who is not active', Wt)
+            if bad:
+                w = dict(Wt, uid=bad[0])
+                # known: check_eligibility hands on whatever the user's rule returns; a rule that returns an agent who has since died
+                # (e.g. the positives of the last screening round) makes the intervention "reach" an inactive agent (the product itself skips them)
+                if el is not None and bad[0] in set(el): w['finding_key'] = 'eligibility-rule-returns-inactive-agent'
+                viol(f'{label}: {ent["name"]} at step {ti} reached agent {bad[0]}, who is not active' + (' (the eligibility rule itself returned this agent)' if 'finding_key' in w else ''), w)
             if ent['kind'] in ('vx', 'screen'):
                 exp_w = expected_window(meta, yearvec) if meta.get('kind') in ('routine', 'campaign') else None
                 cov = [f for f in ent['filters'] if f['name'] and f['name'].endswith('coverage_dist')] or ent['filters'][:1]
